@@ -75,7 +75,7 @@ fn unique(ty: u8, index: u16, serial: u32, global: u32, fsel: u8, timed: bool) -
     let time = if ty == 7 || !timed {
         None
     } else {
-        Some((1_000_000 + global as u64 * 7, true))
+        Some((1_000_000 + (global as u64 * 7919) % 131_071, global % 5 != 0))
     };
     Rec { value, flags, time }
 }
